@@ -1740,20 +1740,20 @@ MANIFEST = {
     "design_ref": "DESIGN.md 4/C02",
 }
 FINDINGS = [
-    {"status": "fixed", "key": "accepted:cites-negative-index", "commit": "fixes/C02-1.patch",
+    {"status": "fixed", "key": "accepted:cites-negative-index", "commit": "2a8cdfa",
      "what": "check_proof accepted `0: |- false by substitution {} from -1`: Proof.find_item used Python's negative indexing, so the line cited itself"},
-    {"status": "fixed", "key": "accepted:cites-itself", "commit": "fixes/C02-2.patch",
+    {"status": "fixed", "key": "accepted:cites-itself", "commit": "21a8a10",
      "what": "check_proof accepted an item at position 0 carrying id 5 and citing 0 (itself): ids were never compared with positions"},
-    {"status": "fixed", "key": "accepted:cites-unverified-item", "commit": "fixes/C02-3.patch",
+    {"status": "fixed", "key": "accepted:cites-unverified-item", "commit": "233066f",
      "what": "check_proof accepted a citation of an empty line (rule '') that carries a statement nobody verified"},
-    {"status": "fixed", "key": "accepted:cites-unverified-or-closed", "commit": "fixes/C02-3.patch",
+    {"status": "fixed", "key": "accepted:cites-unverified-or-closed", "commit": "233066f",
      "what": "the same with the real rules: `0: |- false by ''; 1: |- false by substitution {} from 0` was accepted"},
-    {"status": "fixed", "key": "accepted:result-not-verified", "commit": "fixes/C02-3.patch",
+    {"status": "fixed", "key": "accepted:result-not-verified", "commit": "233066f",
      "what": "check_proof returned the unverified statement of a final empty line as the proved theorem"},
-    {"status": "fixed", "key": "accepted:block-result-unverified", "commit": "fixes/C02-3.patch",
+    {"status": "fixed", "key": "accepted:block-result-unverified", "commit": "233066f",
      "what": "a subproof block ending in a stated empty line passed that statement on as the block's result"},
-    {"status": "fixed", "key": "extend:admitted-unproved:wrong-conclusion", "commit": "fixes/C02-4.patch",
+    {"status": "fixed", "key": "extend:admitted-unproved:wrong-conclusion", "commit": "0c6ef31",
      "what": "checked_extend installed Theorem('bogus', |- false, prf) as proved although prf proves something else"},
-    {"status": "fixed", "key": "extend:admitted-unproved:proof-not-justified:gap-tolerated-with-no-gaps", "commit": "fixes/C02-4.patch",
+    {"status": "fixed", "key": "extend:admitted-unproved:proof-not-justified:gap-tolerated-with-no-gaps", "commit": "0c6ef31",
      "what": "checked_extend installed a theorem as proved although its proof contains a placeholder"},
 ]
